@@ -102,6 +102,23 @@ def triples : List Nat → Option (List (P2 Nat × Nat))
   | a :: b :: d :: r => (triples r).map (fun t => ((a, b), d) :: t)
   | _ => none
 
+def mulOp (x : Ctx) (W : Nat) (r : List String) : String :=
+  match nums r with
+  | some [a, b, d, m] => showOA (ecMulA (ecOps x.c) W (a, b) d m)
+  | _ => "bad-op"
+
+def hasOp (x : Ctx) (W : Nat) (r : List String) : String :=
+  match nums r with
+  | some [a, b, d, m] => if ecHasOrderA (ecOps x.c) W (a, b) d m then "1" else "0"
+  | _ => "bad-op"
+
+def addMulOp (x : Ctx) (W : Nat) (r : List String) : String :=
+  match nums r with
+  | some v => match triples v with
+    | some ts => if ts.isEmpty then "bad-op" else showOA (ecAddMulA (ecOps x.c) W ts)
+    | none => "bad-op"
+  | none => "bad-op"
+
 def handle (args : List String) : String :=
   match args with
   | op :: sp :: sA :: sB :: rest =>
@@ -119,17 +136,12 @@ def handle (args : List String) : String :=
       | "swu", [a] => match hexNat? a with
         | some a => showA (swu p x.c (a % p))
         | none => "bad-op"
-      | "mul", [a, b, d, m] => match nums [a, b, d, m] with
-        | some [a, b, d, m] => showOA (ecMulA (ecOps x.c) 64 (a, b) d m)
-        | _ => "bad-op"
-      | "hasorder", [a, b, d, m] => match nums [a, b, d, m] with
-        | some [a, b, d, m] => if ecHasOrderA (ecOps x.c) 64 (a, b) d m then "1" else "0"
-        | _ => "bad-op"
-      | "addmul", r => match nums r with
-        | some v => match triples v with
-          | some ts => if ts.isEmpty then "bad-op" else showOA (ecAddMulA (ecOps x.c) 64 ts)
-          | none => "bad-op"
-        | none => "bad-op"
+      | "mul", r => mulOp x 64 r
+      | "mul32", r => mulOp x 32 r
+      | "hasorder", r => hasOp x 64 r
+      | "hasorder32", r => hasOp x 32 r
+      | "addmul", r => addMulOp x 64 r
+      | "addmul32", r => addMulOp x 32 r
       | "naf", [d, w] => match hexNat? d, hexNat? w with
         | some d, some w => let r := wwNAF d w; natHex r.1 ++ " " ++ natHex r.2
         | _, _ => "bad-op"
